@@ -64,6 +64,16 @@ class Recorder:
         return out
 
 
+def load_by_pid(path: str) -> dict:
+    """process-mode log: pid -> arguments in that process's own order (per-process sequence numbers)"""
+    rows = [json.loads(ln) for ln in open(path) if ln.strip()] if path and os.path.exists(path) else []
+    rows.sort(key=lambda r: (r["pid"], r["seq"]))
+    out = {}
+    for r in rows:
+        out.setdefault(r["pid"], []).append(_unjd(r["x"]))
+    return out
+
+
 def _jd(o):
     if isinstance(o, (np.integer,)):
         return int(o)
